@@ -307,7 +307,10 @@ func runC17(c *Ctx, body json.RawMessage) *Verdict {
 							case "idletime":
 								dbs[op.H].SetConnMaxIdleTime(time.Duration(op.N) * time.Second)
 							case "sleep":
-								time.Sleep(time.Duration(op.N) * time.Second)
+								// off the whole-second grid: database/sql's cleaner ticks at multiples of
+								// the idle time, and two fake timers expiring at the same instant wake in
+								// an order the simulator does not control
+								time.Sleep(time.Duration(op.N)*time.Second + 137*time.Millisecond)
 							}
 						})
 					}
